@@ -741,7 +741,7 @@ def run(ctx: C.Ctx):
                  'the route by which a dump setting reaches a class: classes that are their own dumper (DumpMixin before / after the wizard '
                  'base, inner Meta) and a process-wide module-level Meta declared before / after the (unused) classes, each such case in a '
                  'forked child, reference = own setting, else the main class\'s, else the global one.')
-    n = ctx.quick(1500, 20000)
+    n = ctx.quick(1500, 8000)
     reqs, pend = [], []
     _probe_tz(ctx)
     for i in range(n):
@@ -754,9 +754,9 @@ def run(ctx: C.Ctx):
     base = n
     gen.CATCH_ALL_VALUES = catch_all_values
     _check_full_key_funcs()
-    for fam, count in (('catch-all', ctx.quick(450, 6000)), ('standalone-first', ctx.quick(450, 6000)), ('local-tz', ctx.quick(350, 5000)),
-                       ('key-names', ctx.quick(400, 5000)), ('failed-first', ctx.quick(400, 5000)),
-                       ('class-objects', ctx.quick(400, 5000)), ('config-route', ctx.quick(400, 5000))):
+    for fam, count in (('catch-all', ctx.quick(450, 2000)), ('standalone-first', ctx.quick(450, 2000)), ('local-tz', ctx.quick(350, 2000)),
+                       ('key-names', ctx.quick(400, 2000)), ('failed-first', ctx.quick(400, 2000)),
+                       ('class-objects', ctx.quick(400, 2000)), ('config-route', ctx.quick(400, 2000))):
         for j in range(count):
             idx = base + j
             if ctx.done(idx):
